@@ -67,6 +67,8 @@ Proof.
   unfold p_map, p_separated0, simples_p. unfold simple_pm at 1. destruct (simple t) as [b0 s1]. rewrite (sep_tail_simples (length s1) s1).
   destruct (simples_tail (length s1) s1) as [[l r']|]; reflexivity.
 Qed.
+Lemma empty_alt_ok s : p_peek (p_alt [p_literal [124; 124]; p_eof]) s = if at_empty_alt s then Some (tt, s) else None.
+Proof. unfold at_empty_alt. comb_unfold. destruct s as [|c r]; [reflexivity|]. destruct (lit [124; 124] (c :: r)); reflexivity. Qed.
 Lemma alt_end_ok s : p_peek (p_pair p_space0 (p_alt [p_literal [124; 124]; p_eof])) s = if at_alt_end s then Some ((tt, tt), s) else None.
 Proof. unfold at_alt_end. comb_unfold. destruct (space0 s) as [|c r]; [reflexivity|]. destruct (lit [124; 124] (c :: r)); reflexivity. Qed.
 
